@@ -355,6 +355,10 @@ from . import removals
 
 from . import mustcall
 
+from . import timers
+
+from . import vocab
+
 OBLIGATIONS = [
     ('C12.O1', 'typestate', 'the transition relation extracted from all stores to UdpProtocol.state with their guards is the '
      'reviewed one; remote_magic is stored only on the ->Running edge.', o1),
@@ -377,4 +381,6 @@ OBLIGATIONS = [
     ('C12.I', 'initial state', 'every constructor gives the fields this property\'s rules interpret (NULL_FRAME = none / nothing yet, 0 = first frame, latches open, typestate start) the value listed in tables/initial_state.json; every field compared with NULL_FRAME anywhere is listed; see rules/initial.py', initial.rule_for('C12')),
     ('C12.R', 'who may remove', 'every call that takes elements out of a collection this property\'s rules rely on (keyed removal from a map, or bulk / positional removal) is one of the reviewed sites in tables/removals.json; a lookup turned into a removal, a second prune, a clear on another path is reported; see rules/removals.py', removals.rule_for('C12')),
     ('C12.M', 'must-call floor', 'the calls listed for this property in tables/must_call.json are made on every path from the entry of their function to a normal return (interprocedural must-call): a new early return, fast path or extra condition in front of one of them is reported; see rules/mustcall.py', mustcall.rule_for('C12')),
+    ('C12.T', 'the endpoint\'s timer table', 'keep-alive, quality report and the interruption timers decide what lifecycle events are raised and when: per timer the field, duration, protocol state, action, re-arm site and writer set are read off poll() and compared with the table in rules/timers.py -- the action\'s guard is exactly `state & field + duration < now`, firing re-arms the timer on every path, nothing else writes the timestamp, every stored value is a clock reading, durations are the documented ones.', timers.rule),
+    ('C12.V', 'no unreviewed condition in the pinned helpers', 'for each helper whose body this property\'s rules pin (tables/condition_terms.json), the terms its path conditions are built from (fields, parameters, call results -- no constants, operators or local names) are a subset of the reviewed vocabulary: one more `if` in front of a pinned result (a lock that may time out, "only while an endpoint is running") is reported; see rules/vocab.py', vocab.rule_for('C12')),
 ]
